@@ -110,3 +110,160 @@ def partition_deck(rnd, nsurf=3, ncells=3, max_leaves=4, allow=None, imp_zero_la
     zero = imp_zero_last if imp_zero_last is not None else (rnd.random() < 0.6)
     d.cells.append(dk.Cell(ncells, e, imp=0 if zero else 1))
     return d, pool.pre
+
+
+# ------------------------------------------------------------------ universes / FILL
+from . import rotations as _rot
+
+
+class Budget:
+    """At most `n` symbolic numbers per deck (each extra symbol multiplies the coincidence forks of the
+    converter); the others are small rational constants.  Over the family every position is symbolic in some deck."""
+
+    def __init__(self, rnd, n, p=0.5):
+        self.rnd, self.left, self.p = rnd, n, p
+
+    def num(self, name, pre, positive=False, choices=None):
+        if self.left > 0 and self.rnd.random() < self.p:
+            self.left -= 1
+            if positive:
+                pre.append(z3.Real(name) > 0)
+            return V(name)
+        if choices:
+            return Fr(self.rnd.choice(choices))
+        if positive:
+            return Fr(self.rnd.choice([1, 2, 3, Fr(3, 2), Fr(5, 2)]))
+        return Fr(self.rnd.choice([-2, -1, 0, 1, 2, Fr(1, 2), Fr(-3, 2)]))
+
+
+def rand_tr(rnd, prefix, pre, sym=True, rot=True, budget=None):
+    """(list of 3 or 12 numbers, description)."""
+    disp = []
+    for i in range(3):
+        if budget is not None:
+            disp.append(budget.num('%s%d' % (prefix, i), pre))
+        elif sym and rnd.random() < 0.6:
+            disp.append(V('%s%d' % (prefix, i)))
+        else:
+            disp.append(Fr(rnd.randint(-2, 2)))
+    if not rot or rnd.random() < 0.4:
+        return disp
+    name, R = rnd.choice(_rot.quick_set())
+    return disp + list(R)
+
+
+def fill_deck(rnd, depth=1, reuse=False, spelling=None, inner='slab', nsym=3):
+    """Container(s) at level 0 filled with a universe; optionally a second level."""
+    d = dk.Deck()
+    pre = []
+    bud = Budget(rnd, nsym)
+    sid = [0]
+    cid = [0]
+
+    def new_surf(mn, params, tr=None):
+        sid[0] += 1
+        d.surfs.append(dk.Surf(sid[0], mn, params, tr))
+        return sid[0]
+
+    def new_cell(**kw):
+        cid[0] += 1
+        c = dk.Cell(cid[0], **kw)
+        d.cells.append(c)
+        return c
+    nmat = [0]
+
+    def mat():
+        nmat[0] += 1
+        rho = rnd.choice(['-2.7', '-1.0', '0.05', '-7.8'])
+        d.mats[nmat[0]] = [('13027', '1.0')] if rho.startswith('-') else [('1001', '2'), ('8016', '1')]
+        return nmat[0], rho
+    # container shapes
+    def container(tag):
+        r = bud.num('r' + tag, pre, positive=True, choices=[2, 3, Fr(5, 2)])
+        kind = rnd.choice(['so', 'rpp', 'cz'])
+        if kind == 'so':
+            s = new_surf('so', [r])
+            return ('s', -s)
+        if kind == 'cz':
+            s = new_surf('cz', [r])
+            p1 = new_surf('pz', [Fr(-3)])
+            p2 = new_surf('pz', [Fr(3)])
+            return ('and', ('s', -s), ('s', p1), ('s', -p2))
+        s = new_surf('rpp', [-r, r, Fr(-2), Fr(2), Fr(-2), Fr(2)])
+        return ('s', -s)
+
+    def universe_cells(u, level):
+        """cells partitioning universe u; returns nothing (cells appended)"""
+        a = bud.num('u%d' % u, pre, positive=(inner == 'sphere'), choices=[Fr(1, 2), 1, Fr(3, 4)])
+        shape = inner if inner != 'rand' else rnd.choice(['slab', 'sphere', 'two'])
+        if shape == 'slab':
+            s = new_surf(rnd.choice(['px', 'py']), [a])
+            regs = [('s', -s), ('s', s)]
+        elif shape == 'sphere':
+            if isinstance(a, RatFn) and a.as_const() is None and inner != 'sphere':
+                pre.append(z3.Real('u%d' % u) > 0)
+            elif not isinstance(a, RatFn) and a <= 0:
+                a = Fr(1)
+            s = new_surf('s', [Fr(rnd.randint(-1, 1)), Fr(0), Fr(0), a])
+            regs = [('s', -s), ('s', s)]
+        else:
+            s = new_surf('px', [a])
+            t = new_surf('py', [Fr(0)])
+            regs = [('and', ('s', -s), ('s', -t)), ('and', ('s', -s), ('s', t)), ('s', s)]
+        cells = []
+        for i, rg in enumerate(regs):
+            m, rho = mat() if rnd.random() < 0.8 else (0, None)
+            c = new_cell(expr=rg, mat=m, rho=rho, imp=1, u=u)
+            cells.append(c)
+        if level < depth:
+            # fill the first cell of this universe with a deeper universe
+            fc = cells[0]
+            fc.mat, fc.rho = 0, None
+            set_fill(fc, u + 1, level + 1)
+
+    def set_fill(c, u, level):
+        sp = spelling or rnd.choice(['none', 'disp', 'num', 'full', 'star', 'trcl', 'trcl+fill'])
+        c.fill = u
+        if sp == 'disp':
+            c.filltr = rand_tr(rnd, 'f%d' % c.id, pre, rot=False, budget=bud)
+        elif sp == 'num':
+            num = 10 + c.id
+            t = rand_tr(rnd, 't%d' % c.id, pre, budget=bud)
+            d.trs[num] = (t, False)
+            c.filltr = num
+        elif sp == 'full':
+            t = rand_tr(rnd, 'f%d' % c.id, pre, budget=bud)
+            if len(t) == 3:
+                t = t + list(_rot.IDENTITY)
+            c.filltr = t
+        elif sp == 'star':
+            ang = rnd.choice([[0, 90, 90, 90, 0, 90, 90, 90, 0], [90, 0, 90, 180, 90, 90, 90, 90, 0],
+                              [0, 90, 90, 90, 90, 180, 90, 0, 90]])
+            c.filltr = rand_tr(rnd, 'f%d' % c.id, pre, rot=False, budget=bud) + [Fr(a_) for a_ in ang]
+            c.fillstar = True
+        elif sp == 'trcl':
+            c.trcl = rand_tr(rnd, 'c%d' % c.id, pre, budget=bud)
+        elif sp == 'trcl+fill':
+            c.trcl = rand_tr(rnd, 'c%d' % c.id, pre, budget=bud)
+            c.filltr = rand_tr(rnd, 'f%d' % c.id, pre, rot=False, budget=bud)
+        if u not in done_universes:
+            done_universes.add(u)
+            universe_cells(u, level)
+
+    done_universes = set()
+    conts = []
+    c1 = new_cell(expr=container('a'), imp=1)
+    conts.append(c1)
+    if reuse:
+        # a second container filled with the SAME universe (it may overlap the first: labels are compared one
+        # by one, and a '#' is not allowed in a cell that may carry a TRCL)
+        sh = bud.num('sh', pre, choices=[3, 4, -3])
+        s = new_surf('s', [sh, Fr(0), Fr(0), Fr(1)])
+        c2 = new_cell(expr=('s', -s), imp=1)
+        conts.append(c2)
+    for c in conts:
+        set_fill(c, 1, 1)
+    rest = tuple(('cell', c.id) for c in conts)
+    new_cell(expr=('and',) + rest if len(rest) > 1 else rest[0], imp=0)
+    # order cells: MCNP does not care; keep creation order
+    return d, pre
